@@ -68,7 +68,7 @@ pub fn c16_wit() {
     assert!(false, "WITNESS");
 }
 
-//@ harness: c16_split_law_n1 tier=thorough timeout=1500 kind=main mem=24 optional=1
+//@ harness: c16_split_law_n1 tier=thorough timeout=900 kind=main mem=24 optional=1
 //@ cuts: strcount
 //@ encodes: op::string::substr (called twice)
 //@ bound: strings of 1 character of symbolic width class, every i64 i >= 0: substr(s,0,i) ++ substr(s,i) == s
